@@ -380,3 +380,52 @@ def actual_sequence(p, env):
         else:
             seq.append((c.kind, c.end))
     return seq
+
+
+def check_neighbour_segment(ctx, ck, rule='R-SIB.add-conn'):
+    """the outer half of a junction pulse lies on the neighbour's segment that touches the junction: joined
+    to the neighbour's same end (index negative) it is the neighbour's first segment at end 1 and its last
+    at end 2, otherwise the other way round; the outer point continues one segment along it.  Over all
+    abstract end states (shared by C02 / C06: the geometry of the junction pulse enters every matrix term)."""
+    import ast
+    from ..poly import poly_roles, cancel
+    g, cpaths = creation_model(ctx)
+    badn = None
+    n_j = 0
+    try:
+        for s0, s1, nseg in states():
+            env_ = make_env(s0, s1, nseg)
+            try:
+                feas = feasible_paths(cpaths, env_, 'end states (%s, %s), %d segments' % (s0, s1, nseg))
+            except AssertionFails:
+                continue
+            for p_ in feas:
+                for c in creations_of(p_):
+                    if c.kind != 'conn' or c.end not in (1, 2) or len(c.args) < 6:
+                        continue
+                    K = c.end
+                    st_ = s0 if K == 1 else s1
+                    rev = st_.endswith('-')
+                    oseg = c.args[4] if K == 1 else c.args[5]
+                    other = 'parent.geo[abs(self.idx_%d) - 1]' % K
+                    want_i = ('0' if rev else '-1') if K == 1 else ('-1' if rev else '0')
+                    n_j += 1
+                    if oseg != '%s.segments[%s]' % (other, want_i):
+                        badn = badn or ('end %d joined to the %s end of the neighbour (state %s): outer half on %s, expected '
+                                        '%s.segments[%s]' % (K, 'same' if rev else 'opposite', st_, oseg[:70], other, want_i), c.stmt)
+                        continue
+                    far = c.call.args[2] if K == 1 else c.call.args[3]
+                    want_far = '%s %s %s.dirvec * %s.seg_len * np.sign(self.idx_%d)' % (
+                        c.args[1], '-' if K == 1 else '+', oseg, oseg, K)
+                    try:
+                        d_ = cancel(poly_roles(far, {}) - poly_roles(ast.parse(want_far, mode='eval').body, {}))
+                        if d_.t != {}:
+                            badn = badn or ('end %d: outer point is %s, expected %s' % (K, norm(far)[:80], want_far[:80]), c.stmt)
+                    except (ValueError, ZeroDivisionError) as e_:
+                        badn = badn or ('end %d: outer point not understood: %s' % (K, e_), c.stmt)
+    except Undecidable as e_:
+        raise AnalysisError('%s: creation model not understood: %s' % (g.qual, e_))
+    ck.floor('junction pulses examined over the end states', n_j, 8)
+    ck.ob(rule, g.qual + '|neighbour-segment', badn is None, g.loc(badn[1]) if badn else g.loc(),
+          'outer half of a junction pulse on the neighbour segment touching the junction, outer point one segment along it'
+          if badn is None else badn[0])
